@@ -48,6 +48,9 @@ def run(ctx):
             ctx.sample({"kernel": im.lines, "isa": im.isa, "arch": im.arch, "meta": meta, "edges": sorted("%s>%s" % e for e in im.edges())})
         if len(ctx.violations) > 10:
             break
+    # ---- register changes inside the model (Isa.regChanges, Props/C03Roles.lean, harness/rolescheck.py)
+    from harness import rolescheck
+    rolescheck.run(ctx, None, volume=0.6)
     ctx.cov["evaluations"] = ctx.counts.get("kernels", 0)
     ctx.cov["distinct_nontrivial"] = len(distinct)
     ctx.cov["traces_validated_against_impl"] = ctx.counts.get("dg_compared", 0)
